@@ -161,4 +161,4 @@ from harness.c10 import OBLIGATIONS as _C10OBS, wiring  # noqa: E402
 OBLIGATIONS += [dict(o, id='C11.0') for o in _C10OBS if o['id'] == 'C10.1']
 
 from harness.codownload import OB_DL, protocol_fixed as co_download_protocol  # noqa: E402
-OBLIGATIONS += [dict(OB_DL, id='C11.6', impl='co_download_protocol')]
+OBLIGATIONS += [dict(OB_DL, id='C11.6', impl='co_download_protocol', cases_thorough=OB_DL['cases'], splits_thorough=OB_DL['splits'])]
